@@ -200,7 +200,6 @@ func checkGbToFasta(o *Out, name string, seq gts.Sequence) {
 	}
 }
 
-
 // the format of an output file is decided by the extension of its name, i.e.
 // by what follows the LAST dot of the base name: accession.version.fasta is FASTA
 func runC17FileNames(o *Out) {
